@@ -211,8 +211,13 @@ def _structure_job(args):
         N = Hh.copy()
         N[0, n - 1, 1] += 0.05 * np.max(np.abs(Hh))          # non-Hermitian by a margin
         R = rng.standard_normal((n, n + 1, 4))
-        for fn, f in (("tridiagonalize", L.tridiag.tridiagonalize), ("quaternion_eigendecomposition", L.eigen.quaternion_eigendecomposition)):
-            for what, M in (("non-hermitian", N), ("non-square", R)):
+        Dg = Hh.copy()
+        Dg[n - 1, n - 1, 2] += 0.3 * np.max(np.abs(Hh))      # conjugate-symmetric off the diagonal, one NON-REAL diagonal entry
+        Dt = Hh.copy()
+        Dt[0, 0, 1:] = [1e-3 * np.max(np.abs(Hh)), 0, 0]     # a small (1e-3 relative) but not rounding-level diagonal defect
+        for fn, f in (("tridiagonalize", L.tridiag.tridiagonalize), ("quaternion_eigendecomposition", L.eigen.quaternion_eigendecomposition),
+                      ("quaternion_eigenvalues", L.eigen.quaternion_eigenvalues), ("quaternion_eigenvectors", L.eigen.quaternion_eigenvectors)):
+            for what, M in (("non-hermitian", N), ("non-square", R), ("non-real-diagonal", Dg), ("slightly-non-real-diagonal", Dt)):
                 t = rec.new(fn, "guard:" + what, {"n": n, "A": M.tolist()})
                 try:
                     import contextlib
